@@ -133,7 +133,9 @@ DoReset ==
 DoLoad ==
     /\ Ev.ev = "load"
     /\ LET post == DbJ(Ev.post)
-       IN  /\ Chk(post = dbs[Ev.from], "C04", "database loaded with the same rows differs",
+       IN  /\ Chk(Ev.failed = "", "C04", "the engine refuses to load the contents of a database it built itself into a fresh one",
+                  [err |-> Ev.failed])
+           /\ Chk(post = dbs[Ev.from], "C04", "database loaded with the same rows differs",
                   [rows |-> DiffRows(post, dbs[Ev.from])])
            /\ Chk(RefsJ(Ev.refs) = RefIndex(post), "C04",
                   "reference index of the reloaded database differs from the one recomputed from the rows",
